@@ -108,8 +108,13 @@ def main():
                         m[kk] = vv
                 if 'history' in prev:
                     m['history'] = prev['history']
+                if 'first_verdict' in prev:
+                    m['first_verdict'] = prev['first_verdict']
+                if 'also_caught_by' in prev:
+                    m['also_caught_by'] = prev['also_caught_by']
             except Exception:
                 pass
+        m.setdefault('first_verdict', caught)
         old.write_text(json.dumps(m, indent=1) + '\n')
         print(f'==> {pid}-{k}: {caught}')
         return 0
